@@ -1104,6 +1104,12 @@ func (p *Parser) parseIf() ast.Node {
 			p.nextToken() // move to the "if"
 			nestedIfToken := p.curToken
 			nestedIf := p.parseIf()
+			if nestedIf == nil {
+				// Don't wrap a missing statement in a block: printing or
+				// compiling the nil node would dereference it
+				p.setTokenError(p.curToken, "invalid syntax in else-if expression")
+				return nil
+			}
 			alternative := ast.NewBlock(nestedIfToken, []ast.Node{nestedIf})
 			return ast.NewIf(ifToken, cond, consequence, alternative)
 		}
